@@ -97,7 +97,7 @@ def judge(prop, bad, scen_by_id, wd):
     return lines, len(viol), known
 
 
-def validate_sample(wd, sample, traces):
+def validate_sample(wd, sample, traces, soft=True):
     """code -> spec for generated programs: each sampled scenario becomes an MPBCore configuration of its own and its
     recorded gate trace must be a behaviour of it (drift is recorded, never a verdict)."""
     from concurrent.futures import ThreadPoolExecutor
@@ -113,6 +113,8 @@ def validate_sample(wd, sample, traces):
         # one successor of a state in which many goroutines can move at once may take TLC minutes (the closure of a big step
         # branches at every select): a sampled validation is given up after two minutes and counted, it decides nothing
         try:
+            if not soft:   # an execution whose attribution to a recorded finding depends on the answer is never given up
+                return cb.validate_traces(sub, "g", {sc["id"]: evs}, cfg=cb.scenario_to_config(sc))
             return cb.validate_traces(sub, "g", {sc["id"]: evs}, cfg=cb.scenario_to_config(sc), timeout=120, soft=True)
         except cb.SoftTimeout:
             return "timeout"
@@ -163,7 +165,7 @@ def sched_part(prop, tier, seed, extra_cov=None, extra_assume=None, tlc_runs=())
         kr = known_rules(prop)
         suspects = sorted({b["tr"] for b in bad if prop in b["p"].split(",") and b["r"] in kr and b["r"].split("/")[0] in ("hang", "goroutine-leak")
                            and scen_by_id[b["tr"]].get("stats") and scen_by_id[b["tr"]] not in sample})
-        explained = validate_sample(wd, [scen_by_id[t] for t in suspects], traces)
+        explained = validate_sample(wd, [scen_by_id[t] for t in suspects], traces, soft=False)
         unexplained = set(explained["drift"]) | (set(gate["drift"]) & {b["tr"] for b in bad})
         for b in bad:
             if b["tr"] in unexplained and b["r"] in kr and b["r"].split("/")[0] in ("hang", "goroutine-leak"):
@@ -424,13 +426,14 @@ def stress_part(prop, tier, seed):
         for k, b in enumerate(bad[:5]):
             path = os.path.join(core.ROOT, "replays", "%s-stress-%d.json" % (prop, k))
             json.dump({"property": prop, "kind": "stress", "rule": "stress-" + b["kind"], "msg": b["msg"]}, open(path, "w"))
-            lines.append("VIOLATION property=%s replay=%s rule=%s %s" % (prop, path, "counter-goes-down" if b["kind"] == "mono" else "completed-unstable", b["msg"][:200]))
+            lines.append("VIOLATION property=%s replay=%s rule=%s %s" % (prop, path, {"mono": "counter-goes-down", "stable": "completed-unstable"}.get(b["kind"], "terminal-answer-wrong-under-concurrent-getters"), b["msg"][:200]))
         cov = {"states": 0, "transitions": 0, "traces_validated_against_impl": done, "evaluations": done, "distinct_nontrivial": done,
                "samples": [{"trials": done}], "exhaustive": False,
                "rule": "%d trials: 4 workers increment and read the counter of one bar while SetTotal(-1, true) arrives at a random moment (the counter "
                        "never goes down); 2 workers take a bar to its total while Abort arrives at a random moment and 2 readers poll Completed() (once "
-                       "true, always true); a slow decorator keeps the bar's goroutine busy" % done,
-               "checker_cmd": "tlc MCBarState.tla (AdoptKeepsCounter, CompletedStable) ; harness.test TestStress"}
+                       "true, always true); a slow decorator keeps the bar's goroutine busy; 6 goroutines ask Completed() and Aborted() of a bar that is terminal "
+                       "while its goroutine is alive (every answer is the bar's state: Exclusive at every moment)" % done,
+               "checker_cmd": "tlc MCBarState.tla (AdoptKeepsCounter, CompletedStable, Exclusive) ; harness.test TestStress"}
         lines.append("%s %s stress: %d trials, %d violations, %.1fs" % (prop, tier, done, len(bad), time.time() - t0))
         return {"cov": cov, "lines": lines, "nviol": len(bad), "assume": ["the overlaps occur often enough within the trials (16 cores)"]}
     finally:
